@@ -4,7 +4,8 @@
 (* receiver.                                                                   *)
 EXTENDS ZSync, TLC
 
-CONSTANTS MaxLog,      \* bound on the receiver's raft log
+CONSTANTS MaxInstall,  \* bound on remote snapshots announced
+          MaxLog,      \* bound on the receiver's raft log
           MaxRestart   \* bound on restarts
 
 VARIABLE nrestart
@@ -17,6 +18,11 @@ TermFn == [i \in 1..N |-> IF 3 * i <= N THEN 1 ELSE 2]
 Init == SInit /\ nrestart = 0
 
 MRecvEntry(i, ok) == Len(rlog) < MaxLog /\ RecvEntry(i, ok) /\ UNCHANGED nrestart
+MCancelPrefix(i) == CancelPrefix(i) /\ UNCHANGED nrestart
+MInstallRemoteSnap(i) == /\ Len(rlog) < MaxLog
+                         /\ Cardinality({k \in DOMAIN rlog : rlog[k] < 0}) < MaxInstall
+                         /\ InstallRemoteSnap(i) /\ UNCHANGED nrestart
+MApplySnapEntry == ApplySnapEntry /\ UNCHANGED nrestart
 MApplyCheck   == ApplyCheck /\ UNCHANGED nrestart
 MApplyEffect  == ApplyEffect /\ UNCHANGED nrestart
 MApplySynced  == ApplySynced /\ UNCHANGED nrestart
@@ -26,6 +32,9 @@ MRestart      == nrestart < MaxRestart /\ Restart /\ nrestart' = nrestart + 1
 
 Next ==
   \/ \E i \in 1..N, ok \in BOOLEAN : MRecvEntry(i, ok)
+  \/ \E i \in 1..N : MCancelPrefix(i)
+  \/ \E i \in 1..N : MInstallRemoteSnap(i)
+  \/ MApplySnapEntry
   \/ MApplyCheck
   \/ MApplyEffect
   \/ MApplySynced
